@@ -597,6 +597,11 @@ func c01one(c *h.Ctx, r *h.Rand, g, snap, want orb.Geometry, isNil bool, order b
 			fail("", path+": SRID differs from the one written", map[string]interface{}{"got": gotSRID, "want": wantSRID})
 			return false
 		}
+		if re, err := wkb.Marshal(got, order); err != nil || !bytes.Equal(re, wdata) {
+			// (kind, nesting, coordinate bits and the difference between an empty value and no value all show here)
+			fail("", path+": the decoded value does not encode to the bytes it was decoded from", map[string]interface{}{"err": sv(err), "re_encoded": hex.EncodeToString(re), "original": hex.EncodeToString(wdata), "decoded": fmt.Sprintf("%#v", got)})
+			return false
+		}
 		if !partsIndependent(got) {
 			fail("", path+": parts of one decoded geometry share memory (appending to one part overwrites another)", map[string]interface{}{"now": sv(got)})
 			return false
